@@ -324,7 +324,10 @@ def writers(ctx):
     allowed_fin.add(step)
     stop = [k for k in facts.by_name("stop") if facts.bodies[k].get("impl_self") == "axecutor::Axecutor"]
     allowed_fin |= set(stop)
-    # the built-in exit hook: a closure of the function that registers Syscall::Exit handling
+    # the built-in exit hooks: the native hook closures that select the exit / exit_group syscall numbers (by role)
+    from . import C13
+    exit_hooks = {c for num, c in C13.hook_closures_by_syscall(ctx).items() if num in (60, 231)}
+    raisers = set()
     n = 0
     for k, b in facts.bodies.items():
         if b["glue"]:
@@ -341,7 +344,7 @@ def writers(ctx):
                         facts.bodies[k.split("::{closure")[0]]["name"]
                     val = st[2]
                     is_true = val[0] == "use" and val[1][0] == "k" and val[1][1].get("v") == 1
-                    okw = owner in allowed_fin or (b["kind"] == "Closure" and k.split("::{closure")[0].endswith("::register_exit"))
+                    okw = owner in allowed_fin or k in exit_hooks
                     if okw and is_true:
                         ck.ok("C11.writers", inst)
                     elif not is_true and owner not in () and not (val[0] == "use" and val[1][0] == "k" and val[1][1].get("v") == 0
@@ -358,30 +361,44 @@ def writers(ctx):
                     const_false = v[0] == "k" and v[1].get("v") == 0
                     const_true = v[0] == "k" and v[1].get("v") == 1
                     inst = "AxError built in %s" % (b["name"] or k)
+                    copies_flag = v[0] in ("c", "m") and any(isinstance(e, list) and e[0] == "f" and e[2] == "signals_normal_finish"
+                                                           for e in v[1][1])
+                    if not copies_flag and v[0] in ("c", "m") and not v[1][1]:
+                        # a local that is itself a copy of some error's flag
+                        for b2 in b["blocks"]:
+                            for s2 in b2["s"]:
+                                if s2[0] == "a" and s2[1][0] == v[1][0] and not s2[1][1] and s2[2][0] == "use" and s2[2][1][0] in ("c", "m") \
+                                        and any(isinstance(e, list) and e[0] == "f" and e[2] == "signals_normal_finish" for e in s2[2][1][1][1]):
+                                    copies_flag = True
                     if const_false:
                         ck.ok("C11.writers", inst)
-                    elif const_true and b["name"] == "end_execution":
+                    elif const_true:
+                        # a raiser of the normal-finish signal (by role): judged by who calls it, below
+                        raisers.add(k.split("::{closure")[0])
                         ck.ok("C11.writers", inst)
-                    elif b["name"] == "add_detail":
-                        # copies the flag of the error it decorates
-                        ck.ok("C11.writers", inst)
+                    elif copies_flag:
+                        ck.ok("C11.writers", inst)   # a decorator that keeps the flag of the error it wraps
                     else:
-                        ck.violation("C11.writers", inst, "signals_normal_finish set outside end_execution",
+                        ck.violation("C11.writers", inst, "signals_normal_finish is set from a computed value",
                                      where=F.site_str(b, st[3]))
-    # callers of end_execution: only handlers bound to Ret codes
-    ee = [k for k in facts.by_name("end_execution")]
+    # callers of the raisers: only the handlers bound to Ret codes (closures count for the function they are written in)
     ret_handlers = {d["handler"] for c, d in D.codes.items() if d["mnemonic"] == "Ret"}
     for k, b in facts.bodies.items():
         if b["glue"]:
             continue
+        owner_ = k.split("::{closure")[0]
+        if owner_ in raisers:
+            continue
         for blk in b["blocks"]:
             t = blk["term"]
-            if t["k"] == "call" and F.callee_name(t) in ee:
-                inst = "end_execution called from %s" % b["name"]
-                if k in ret_handlers:
+            if t["k"] == "call" and F.callee_name(t) in raisers:
+                inst = "normal-finish signal raised from %s" % (facts.bodies[owner_]["name"] if owner_ in facts.bodies else owner_)
+                if owner_ in ret_handlers:
                     ck.ok("C11.writers", inst)
                 else:
                     ck.violation("C11.writers", inst, "normal-finish signal raised outside RET", where=F.site_str(b, t["sp"]))
+    if not raisers:
+        ck.violation("C11.writers", "normal-finish signal", "nothing builds an error with the normal-finish signal set")
     ck.floor("finished writers", n, 3)
 
 
